@@ -147,6 +147,10 @@ def body(run: Run, replay):
         qg = n2p.addgrid(None, 6001, "q", 0, [1.0, 2.0, 3.0], 0)
         full = pd.concat([uset, sp, qg], axis=0)
         x0 = rng.uniform(-5, 5, 3)
+        if ti % 3 == 1:
+            x0[ti % 2] = 0.0                 # reference points ON a coordinate plane / axis of basic
+        elif ti % 3 == 2:
+            x0[:2] = 0.0
         try:
             rb = n2p.rbgeom_uset(full, x0)
             rb_g = n2p.rbgeom_uset(full, gids[0])
@@ -278,6 +282,24 @@ def body(run: Run, replay):
         rot[:3, :3] = Tnew
         rot[3:, 3:] = Tnew
         ok2 = close(rbn @ rot, rbu, 1e-9, scale)
+        # the new system IS the old basic system: coordinates in it are the old basic locations, for every grid, and grids that were
+        # output in the old basic now carry (id, rectangular, origin A, T) of the new system
+        ok3 = True
+        if any(co_ == 0 for co_ in couts):
+            try:
+                for n_, g in enumerate(gids):
+                    if not close(n2p.getcoordinates(un, g, 77), xb[n_], 1e-9, scale):
+                        ok3 = False
+            except Exception as ex:
+                run.violation("getcoordinates in the inserted system raised %r after replace_basic_cs" % ex, {"types": types}, dict(tags0, fn="replace_basic_cs"))
+            for n_, co_ in enumerate(couts):
+                if co_ == 0:
+                    rows = un.values[6 * n_ + 1: 6 * n_ + 6, 1:]
+                    if not (rows[0, 0] == 77 and rows[0, 1] == 1 and close(rows[1], newcs[1], 1e-12, scale) and close(rows[2:], Tnew, 1e-12)):
+                        ok3 = False
+        if not ok3:
+            run.violation("replace_basic_cs: the inserted system does not describe the old basic system (coordinates in it / its rows in the table)",
+                          {"types": types, "refs": refs, "newcs": newcs}, dict(tags0, fn="replace_basic_cs", clause="inserted-system"))
         if not ok or not ok2:
             run.violation("replace_basic_cs does not move the model rigidly (distances / relative orientations / rigid-body modes about the moved point)",
                           {"types": types, "refs": refs, "newcs": newcs}, dict(tags0, fn="replace_basic_cs"))
